@@ -42,16 +42,40 @@ def _fragmentable(ctx):
     fn = m.functions.get('is_fragmentable_frame')
     if not fn:
         raise AnalysisError('C03: is_fragmentable_frame vanished')
-    out = []
+    named = []
     for n in walk_local(fn[-1].node):
         if isinstance(n, ast.Tuple):
             for e in n.elts:
                 c = ctx.repo.resolve_expr(m, e)
                 if isinstance(c, ClassInfo):
-                    out.append(c)
+                    named.append(c)
+    # isinstance() also holds for subclasses: the classes the predicate accepts are the concrete frame classes at or
+    # below the named ones
+    out = []
+    for c in named:
+        for k in ctx.repo.concrete_subclasses(c):
+            if k not in out and k.qualname.startswith('rsocket.frame:'):
+                out.append(k)
     if len(out) < 5:
         raise AnalysisError('C03: expected 5 fragmentable frame classes, found %d' % len(out))
     return out
+
+
+def rule_predicate_is_the_mixin(ctx):
+    """What `is_fragmentable_frame` accepts (subclasses included) is exactly the set of frame classes that mix in
+    FrameFragmentMixin - the frames that can be sent in fragments and therefore carry the FOLLOWS flag.  A wider
+    predicate sends other frames (REQUEST_N is a RequestFrame too) through the reassembly cache, which rejects them
+    while a fragment train of their stream is open; a narrower one lets fragments bypass the cache."""
+    rep = ctx.report
+    accepted = {k.name for k in _fragmentable(ctx)}
+    mixin = ctx.repo.cls('rsocket.frame:FrameFragmentMixin')
+    mixed = {k.name for k in ctx.repo.concrete_subclasses(mixin, include_self=False)
+             if k.qualname.startswith('rsocket.frame:')}
+    ok = accepted == mixed
+    rep.add('C03.c', 'is_fragmentable_frame / accepts exactly the classes that can be fragmented', mixin, ok,
+            'the %d classes with FrameFragmentMixin' % len(mixed) if ok else
+            'accepted but not fragmentable: %s; fragmentable but not accepted: %s' % (
+                sorted(accepted - mixed) or '-', sorted(mixed - accepted) or '-'))
 
 
 def _budgets(ctx, length_required: bool):
@@ -1240,4 +1264,4 @@ def rule_i(ctx):
 
 
 RULES = [('C03.a', rule_a), ('C03.b', rule_b), ('C03.c', rule_c), ('C03.d', rule_d), ('C03.e', rule_e),
-         ('C03.f', rule_f), ('C03.g', rule_g), ('C03.h', rule_h), ('C03.i', rule_i)]
+         ('C03.f', rule_f), ('C03.g', rule_g), ('C03.h', rule_h), ('C03.i', rule_i), ('C03.c', rule_predicate_is_the_mixin)]
